@@ -270,7 +270,9 @@ theorem readPyC_pays (n : Int) (d : B) (p : Nat) : Pays 1 1 d p (readPyC n d p) 
   unfold readPyC
   split
   · exact readAllC_pays d p
-  · exact readUpToC_pays0 _ d p
+  · split
+    · exact (PaysCr.error _)
+    · exact readUpToC_pays0 _ d p
 
 theorem isReadableC_w (n : Nat) (d : B) (p : Nat) : (isReadableC n d p).2.w ≤ 1 + n := by
   have : (isReadableC n d p).2.w = 1 + min n (d.length - p) := rfl
@@ -302,6 +304,8 @@ theorem readLenBlockC_pays (c skip w pad : Nat) (d : B) (p : Nat) :
   unfold readLenBlockC
   refine PaysCr.bind (readNC_pays skip d p) (fun _ p0 _ => ?_) (Nat.le_add_left 1 c)
   refine PaysCr.bind (readUC_pays w d p0) (fun n p1 _ => ?_) (Nat.le_add_left 1 c)
+  dsimp only
+  refine PaysCr.ite (fun _ => PaysCr.error _) (fun _ => ?_)
   refine PaysCr.bind (readUpToC_pays c n d p1) (fun x p2 _ => ?_) (Nat.le_refl _)
   dsimp only
   refine PaysCr.ite (fun _ => PaysCr.error _) (fun _ => ?_)
